@@ -390,7 +390,7 @@ def add_second_channel(spec, frame_index, rows, new_op=None):
 class C12(Property):
     id = 'C12'
     number = 12
-    technique = ("Hypothesis-generated valid specifications combined with 1-3 invalidations from a catalogue of 30 kinds (62 kind x position variants, each with its own search so that none depends on luck); "
+    technique = ("Hypothesis-generated valid specifications combined with 1-3 invalidations from a catalogue of 32 kinds (69 kind x position variants, each with its own search so that none depends on luck); "
                  "oracle: the outcome is an exception, or the file strictly decodes and matches the specification; for "
                  "inputs without a faithful representation a normal return is itself the violation")
     rule = ("cases: valid base specification (frames, metadata, no-format data) + invalidations drawn from: unequal row "
